@@ -159,6 +159,8 @@ void t_sline_api(Src &s, Case &c)
         case 3:
         {
             unsigned k = (unsigned)s.range(0, (int64_t)cap + 1);
+            if (k == cap + 1 && (line.size() & 1))
+                k = (line.size() & 2) ? 0xFFFFFFFFu : 0x7FFFFFFFu; // "everything to the left"
             c.log(" backspace(%u)", k);
             size_t take = k < cur ? k : cur;
             if (take && cur < line.size())
@@ -174,6 +176,8 @@ void t_sline_api(Src &s, Case &c)
         case 4:
         {
             unsigned k = (unsigned)s.range(0, (int64_t)cap + 1);
+            if (k == cap + 1 && (line.size() & 1))
+                k = (line.size() & 2) ? 0xFFFFFFFFu : 0x7FFFFFFFu; // "everything to the right", the way a caller says it
             c.log(" delete(%u)", k);
             size_t right = line.size() - cur;
             size_t take = k < right ? k : right;
